@@ -19,4 +19,11 @@ CHECKS = {
          "after every event both covariant operators are compared entrywise with a fresh rebuild for the latest potential. At solver level every script of per-step field increments of length 5/6 "
          "(and 3/4 with screening) is driven through the real TDGLSolver.update and the Laplacian actually handed to solve_for_psi_squared is compared with a rebuild."),
    note="differential oracle: the rebuild uses the library's own first-call builder (absolute correctness of the builders is C03/C04); potentials outside the alphabet rest on the affine dependence of each entry on one link variable"),
+ "C15": dict(
+   engine="mc-core", category="fault_enumeration", design_ref="DESIGN.md 3/C15, Appendix A",
+   technique="exhaustive fault-point enumeration (every update call, writer call and HDF5 write op) on the real run loop and data handler, compared with the recorder specification truncated at the stop",
+   text=("Every point at which a bounded run can stop is taken in turn: each update call of both stages, each frame-writer call and (after a dry run that counts them) each HDF5 write operation inside the writer, "
+         "for an injected exception and for KeyboardInterrupt with pause off / pause+'n' / pause+'y', crossed with output path shapes and all 16 subsets of pre-existing files. After each execution the harness audits open HDF5 handles, "
+         "the sandbox and private temp directory, pre-existing files (bytes and mtime), the frames in the output (complete, labelled, timed and filled as RM-recorder demands before the stop) and the usability of the returned partial solution."),
+   note="update replaced by the scripted environment; HDF5 write ops = create_group/__setitem__/attrs.__setitem__/Dataset.__setitem__/flush; resume ('y') checked for cleanliness only; extension-less or unwritable output paths are outside the alphabet (non-terminating path search, recorded in DESIGN.md)"),
 }
